@@ -20,6 +20,7 @@ import KafkaVerif.Lemmas.GroupInv
 import KafkaVerif.Lemmas.GroupHb
 import KafkaVerif.Lemmas.GroupHbAlive
 import KafkaVerif.Lemmas.GroupResp
+import KafkaVerif.Lemmas.GroupWatch
 import KafkaVerif.Gen.GroupFacts
 
 namespace KV.Group.C15
@@ -354,6 +355,21 @@ theorem handed_has_heartbeat (c : Cfg) (s s' : St) (h : Reachable c s) (g : Nat)
   split at hs
   · rename_i hc; simp at hc; exact .inl hc.1.1.2
   · cases hs
+
+/-! ### one partition watcher per CONFIGURED topic -/
+
+/-- With WatchPartitionChanges (`nWatch` = number of configured topics) a generation that waits for hand-over or runs has
+exactly one watcher per configured topic — also for topics of which this member was assigned nothing (their partition
+count changing must end the generation too: `ctx_cancelled_on_partition_change` applies to each of them). -/
+theorem watchers_for_all_topics (c : Cfg) (s : St) (h : Reachable c s) (hp : s.pc = .handing ∨ s.pc = .running) :
+    s.cur.watchers.length = c.nWatch := by
+  have i := inv5_reachable c s h
+  unfold Inv5 inv5P at i
+  rcases hp with hp | hp <;> rw [hp] at i <;> exact i
+
+/-- regenerated: the watchers are started by ranging over the configured topics (`cg.config.Topics`), not over the
+assignment -/
+theorem watchers_match_source : KV.Gen.Group.watcherRange = "Topics" := by decide
 
 /-! ### a generation only after a successful OffsetFetch (hypothesis of C03 `start_at_committed`) -/
 
